@@ -22,12 +22,19 @@ pub const ASSUMPTIONS: &[&str] = &[
 
 fn stage(i: &Input, c: &mut Case) -> Result<(), String> {
     let mut t = Tape::new(i.tape());
-    let to = TreeOpts { max_nodes: 30, pay: PayOpts { big_left: 1, huge: false, max_small: 20 }, deep: t.chance(1, 2), ..TreeOpts::default() };
+    // one case in 40 may carry a payload beyond the 64 KiB mark: large elements are where writers take short cuts past their buffer
+    let huge = t.chance(1, 40);
+    let to = TreeOpts { max_nodes: if huge { 10 } else { 30 }, pay: PayOpts { big_left: if huge { 2 } else { 1 }, huge, max_small: 20 }, deep: t.chance(1, 2), ..TreeOpts::default() };
     let mut eo = EncOpts { widths: true, unknown: true, full: true, noncanonical: false };
     if t.chance(1, 8) {
         eo.unknown = false;
     }
     let mut d = gen_doc(&mut t, SpecOpts::default(), to, eo);
+    if huge {
+        let n = *t.pick(&[65_535usize, 65_536, 65_537, 70_000, 131_072]);
+        enlarge_one_leaf(&mut t, &mut d.forest, n);
+        fix_widths(&mut d.forest);
+    }
     // unknown-size masters are what makes streaming observable: make roots unknown-size often
     if eo.unknown {
         for n in d.forest.iter_mut() {
@@ -44,6 +51,7 @@ fn stage(i: &Input, c: &mut Case) -> Result<(), String> {
     }
     note_cleared(c, &d);
     doc_labels(c, &d);
+    c.label_if(huge && crate::gen::any_node(&d.forest, &|n| crate::gen::content_len(n) >= 65_535 && !n.is_master()), "payload_64KiB_or_more");
     let valid_ops = forest_ops(&d.forest);
     // "all sequences of writer calls" includes calls that are rejected: 1-2 contract-failing calls are mixed in for a third of
     // the sequences (they must return an error and are not part of the accepted tags)
